@@ -48,6 +48,14 @@ CHECKS = {
     "C03": _world("TestC03", _R["C03"], 250, 12000, extra_assume=["ics23/go v0.11.0 verifier (IavlSpec)"]),
     "C04": _world("TestC04", _R["C04"], 300, 15000, extra_assume=["ics23/go v0.11.0 verifier (IavlSpec)"]),
     "C07": _world("TestC07", _R["C07"], 600, 40000),
+    "C05": {
+        "level": "fault_enumeration",
+        "rule": "TestC05: a generated prefix history (8-40 steps + a burst of 0-8 large writes) on the journaling storage seam with flush threshold in {150,300,1000,100000}, then ONE operation O in {SaveVersion, DeleteVersionsTo(n), LoadVersionForOverwriting(n), (re)open with the fast index enabled = first-time / forced index build}; the seam yields the base image B and the journal J of O (one entry per physical batch write) and EVERY cut k in [0,|J|] is enumerated, each recovered twice (fast index on / off): reopening B+J[:k] must succeed, AvailableVersions must be the state before or after O (for DeleteVersionsTo also a shorter deletion, since it deletes version by version), every version of that state is re-read completely (hash, contents through walk and fast paths, iteration, raw f-entries vs label), then O is repeated and must reach the crash-free result, verified through a fresh handle. TestC05Import: import commit (plain/compressed, with a root inherited from an earlier version, with fast-index build) cut at every write, incl. retry of the import. non-trivial = |J| >= 2 (the operation was split over several physical writes); exhaustive within each history, sampled across histories",
+        "assumptions": _ASSUME + ["each underlying batch write is atomic and ordered (given by the property); MemDB under the seam is the fault-free substrate", "torn (non-atomic) batch writes and fsync semantics of real disks are out of scope"],
+        "coverage_extra": {"exhaustive_within_each_history": True},
+        "quick": [{"test": "TestC05", "checks": 120, "shards": 8}, {"test": "TestC05Import", "checks": 150, "shards": 4}],
+        "thorough": [{"test": "TestC05", "checks": 6000, "shards": 13}, {"test": "TestC05Import", "checks": 6000, "shards": 3}],
+    },
     "C08": _world("TestC08", _R["C08"], 500, 30000),
     "C09": _world("TestC09", _R["C09"], 300, 20000),
     "C10": {
